@@ -129,6 +129,7 @@ type History struct {
 
 	dropSeen       bool // some series was dropped from a shard
 	churnSinceDrop bool // index / series-file compaction or reopen since the last drop
+	reopened       bool // the stores were reopened at least once
 	dead           bool // stores must not be used any more (hung operation)
 	stop           bool // an unlisted violation was reported: the twins may have diverged from the model
 }
@@ -210,9 +211,16 @@ func (h *History) apply(op Op) bool {
 	r.Count("op_"+op.Kind, 1)
 	var opErr error
 	var errEnv *Env
+	// Compactions of the tsi1 log started by this op run in the background;
+	// half of the time the questions are asked while they may still be running.
+	settle := h.g.Intn(2) == 0 || op.Kind == "tsi-compact"
+	t0 := time.Now()
+	defer func() { r.Count("ms_in_op_"+op.Kind, time.Since(t0).Milliseconds()) }()
 	res, dump := ev.Watch(150*time.Second, 15*time.Second, func() {
 		for _, e := range h.envs {
 			var err error
+			te := time.Now()
+			defer func(e *Env) { r.Count("ms_until_end_of_op_"+op.Kind+"_from_start_of_"+e.Index, time.Since(te).Milliseconds()) }(e)
 			switch op.Kind {
 			case "write":
 				err = e.Write(op.Shard, op.pts)
@@ -249,6 +257,9 @@ func (h *History) apply(op Op) bool {
 					return
 				}
 				r.Count("series_file_partition_indexes_rebuilt_by_threshold", int64(e.SFileRebuilt()))
+			}
+			if settle {
+				e.WaitTSI()
 			}
 		}
 	})
@@ -289,12 +300,10 @@ func (h *History) apply(op Op) bool {
 		}
 	case "tsi-compact", "sfile-compact", "reopen":
 		h.churnSinceDrop = true
+		h.reopened = h.reopened || op.Kind == "reopen"
 	}
 	// Compactions of the tsi1 log started by this op run in the background;
 	// half of the time the questions are asked while they may still be running.
-	if h.g.Intn(2) == 0 || op.Kind == "tsi-compact" {
-		h.envs[1].WaitTSI()
-	}
 	if lv := h.envs[1].TSILevels(); len(lv) > 0 {
 		max := 0
 		for l := range lv {
@@ -670,8 +679,12 @@ func (h *History) askAll() bool {
 	suffix := strings.Join(h.kinds[max(0, len(h.kinds)-3):], ">")
 	nontrivial := h.dropSeen && h.churnSinceDrop
 	ok := true
+	t0 := time.Now()
+	defer func() { r.Count("ms_in_questions", time.Since(t0).Milliseconds()) }()
 	res, _ := ev.Watch(150*time.Second, 15*time.Second, func() {
 		for _, e := range h.envs {
+			te := time.Now()
+			defer func(e *Env) { r.Count("ms_in_questions_"+e.Index, time.Since(te).Milliseconds()) }(e)
 			for _, q := range qs {
 				if q.TSIOnly && e.Index != "tsi1" {
 					continue
@@ -758,7 +771,17 @@ func (h *History) askNumbers(e *Env) bool {
 		if got < want {
 			dir = "low"
 		}
-		return h.fail("C14/"+kind+"/"+dir+"/"+e.Index, e, desc, scope, []string{fmt.Sprint(want)}, []string{fmt.Sprint(got)}, nil, nil,
+		var detail []string
+		for _, id := range scope {
+			detail = append(detail, e.SeriesIDDetail(id)...)
+		}
+		sig := "C14/" + kind + "/" + dir + "/" + e.Index
+		if dir == "high" && e.Index == "tsi1" && h.reopened && int64(len(e.DeletedIDs(scope))) == got-want {
+			// every surplus id is one the series file has deleted: one root cause, one signature
+			sig = "C14/cardinality-high/tsi1/" + replayClass
+			r.Count("surplus_answers_of_class_"+replayClass, 1)
+		}
+		return h.fail(sig, e, desc, scope, []string{fmt.Sprint(want)}, append([]string{fmt.Sprint(got)}, detail...), nil, nil,
 			fmt.Sprintf("%s store: %s = %d but %d series are live", e.Index, desc, got, want))
 	}
 	c, err := e.SeriesCardinality()
